@@ -134,7 +134,7 @@ def names(tier="quick"):
                 seen.add(n)
                 yield n
     if tier == "thorough":
-        for combo in itertools.product(ALPHA4, repeat=4):
+        for combo in itertools.product(ALPHA[:13], repeat=4):
             n = "".join(combo)
             if n not in seen:
                 seen.add(n)
@@ -461,7 +461,7 @@ META = {
     "Unicode code point (quick: whole BMP + every 16th astral block) inserted into and prefixed to an importable canary class name; translation-off: 22 "
     "descriptor shapes x 16 placements (incl. 26/30/61 levels deep) x {loads, load, server, server batch, client proxy, and the escaped key spelling}; "
     "translation-on: 17 rejected shapes x 11 placements x {plain, escaped key}; non-trivial = every case (each has a defined expectation)",
-    "bounds": {"quick": {"name_length": 3}, "thorough": {"name_length": "3 over 16 characters, 4 over 10 characters"}},
+    "bounds": {"quick": {"name_length": 3}, "thorough": {"name_length": "3 over 16 characters, 4 over 13 characters"}},
     "assumptions": [
         "an import event is attributed to the library when a jsonrpclib frame is on the stack of the importing call",
         "names that satisfy the reference predicate may be imported (only missing modules and side-effect-free ones occur in the alphabet)",
